@@ -162,9 +162,10 @@ Qed.
    (pi_ := 648000 makes radians = arc-seconds; quarter-turn phases: exact) *)
 Example ex_siblings_differ :
   let G1 := @Build_geom QOpsT [[false; true]] 1%Q 1%Q 0%Q 0%Q in let G2 := @Build_geom QOpsT [[true; false]] 1%Q 1%Q 0%Q 0%Q in
-  @run_hist QOpsT (648000 # 1)%Q [] [@HNew QOpsT G1 [(1 # 2, 0)%Q] true; @HNew QOpsT G2 [(1 # 2, 0)%Q] true;
-                                   @HVis QOpsT 0%nat [1%Q]; @HVis QOpsT 1%nat [1%Q]]
-  = [@ONew QOpsT [(0, -1 # 2)%Q]; @ONew QOpsT [(0, 1 # 2)%Q]; @OVis QOpsT [(0, 1)%Q]; @OVis QOpsT [(0, -1)%Q]].
+  map (fun o : @hout QOpsT => match o with ONew g => g | OVis v => v | _ => [] end)
+    (@run_hist QOpsT (648000 # 1)%Q [] [@HNew QOpsT G1 [(1 # 2, 0)%Q] true; @HNew QOpsT G2 [(1 # 2, 0)%Q] true;
+                                        @HVis QOpsT 0%nat [1%Q]; @HVis QOpsT 1%nat [1%Q]])
+  = [[(0, -1 # 2)%Q]; [(0, 1 # 2)%Q]; [(0, 1)%Q]; [(0, -1)%Q]].
 Proof. vm_compute. reflexivity. Qed.
 
 Print Assumptions C13_visibilities_formula.
